@@ -2,6 +2,7 @@ package main
 
 import (
 	"bytes"
+	"crypto"
 	"encoding/hex"
 	"fmt"
 	"runtime/debug"
@@ -10,6 +11,8 @@ import (
 
 	ber "github.com/go-asn1-ber/asn1-ber"
 
+	"github.com/sassoftware/relic/v8/lib/fruit/csblob"
+	"github.com/sassoftware/relic/v8/lib/fruit/xar"
 	"github.com/sassoftware/relic/v8/lib/pkcs7"
 	"github.com/sassoftware/relic/v8/lib/pkcs9"
 
@@ -660,14 +663,27 @@ func repack(blob []byte) ([]byte, error) {
 
 func berRepack(in *input, lx *dergen.CMS, x []byte) {
 	forms := []struct {
-		name  string
-		depth int
-	}{{"der", 0}, {"indefinite-outer3", 3}, {"indefinite-all", 99}}
+		name     string
+		depth    int
+		from, to int  // from > 0: indefinite only at depths [from, to), definite above
+		nonMin   bool // outermost length in non-minimal long form
+	}{{"der", 0, 0, 0, false}, {"indefinite-outer1", 1, 0, 0, false}, {"indefinite-outer3", 3, 0, 0, false}, {"indefinite-all", 99, 0, 0, false},
+		{"definite-outside-indefinite-inside", 0, 1, 3, false}, {"definite-outside-indefinite-below", 0, 2, 99, false},
+		{"non-minimal-outer-length", 0, 0, 0, true}, {"non-minimal-outer-length+indefinite-inside", 0, 1, 3, true}}
 	for _, f := range forms {
 		src := x
-		if f.depth > 0 {
+		if f.depth > 0 || f.from > 0 || f.nonMin {
 			var err error
-			if src, err = dergen.ToIndefinite(x, f.depth); err != nil {
+			switch {
+			case f.depth > 0:
+				src, err = dergen.ToIndefinite(x, f.depth)
+			case f.from > 0:
+				src, err = dergen.ToIndefiniteLevels(x, f.from, f.to)
+			}
+			if err == nil && f.nonMin {
+				src, err = nonMinimalOuter(src)
+			}
+			if err != nil {
 				harnessError(in, "ber-repack", err.Error())
 				return
 			}
@@ -678,6 +694,7 @@ func berRepack(in *input, lx *dergen.CMS, x []byte) {
 				run.Outcome("refused:" + refusalClass(in, nil, err))
 			}
 		}
+		berReal(in, lx, x, src, f.name)
 		var out []byte
 		op := "ber-repack:" + f.name
 		err, pan := guard(in, "ber.DecodePacketErr+Bytes (csblob.parseSignature/xar.Verify)", func() (e error) { out, e = repack(src); return })
@@ -714,6 +731,88 @@ func berRepack(in *input, lx *dergen.CMS, x []byte) {
 			}
 		}
 	}
+}
+
+// nonMinimalOuter rewrites the outermost length octets in long form with one
+// superfluous leading zero (the value may already be indefinite inside).
+func nonMinimalOuter(b []byte) ([]byte, error) {
+	if len(b) < 2 || b[1] == 0x80 {
+		return nil, fmt.Errorf("outer length is not definite")
+	}
+	var l, hdr int
+	if b[1] < 0x80 {
+		l, hdr = int(b[1]), 2
+	} else {
+		n := int(b[1] & 0x7f)
+		for _, c := range b[2 : 2+n] {
+			l = l<<8 | int(c)
+		}
+		hdr = 2 + n
+	}
+	var lb []byte
+	for v := l; v > 0; v >>= 8 {
+		lb = append([]byte{byte(v)}, lb...)
+	}
+	out := []byte{b[0], byte(0x80 | (len(lb) + 1)), 0}
+	out = append(out, lb...)
+	return append(out, b[hdr:hdr+l]...), nil
+}
+
+// berReal hands the BER form to the two functions of the tree that accept
+// third-party BER signatures - csblob.parseSignature (through a super blob, as
+// a Mach-O carries it) and xar.XAR.Verify - instead of to a replica of what
+// they do. A form whose DER equivalent parses must parse, and what comes out
+// must have every signed region byte-identical to the DER original.
+func berReal(in *input, lx *dergen.CMS, x, src []byte, form string) {
+	if _, err0 := pkcs7.Unmarshal(x); err0 != nil {
+		return // the DER form itself is outside what relic parses: nothing to demand
+	}
+	// csblob
+	var psd *pkcs7.ContentInfoSignedData
+	err, pan := guard(in, "csblob.parseSignature", func() (e error) { psd, e = csblob.VerifParseSignatureCMS(src); return })
+	run.Eval(1)
+	op := "ber-real:csblob:" + form
+	switch {
+	case pan:
+	case err != nil:
+		violation("ber-form-refused:csblob.parseSignature:"+form, fmt.Sprintf("%s %s: %v", in.Src, in.Label, err), in.replay(op, map[string]any{"ber_hex": hex.EncodeToString(src)}))
+	case psd == nil:
+		violation("ber-form-dropped:csblob.parseSignature:"+form, fmt.Sprintf("%s %s: no CMS came out", in.Src, in.Label), in.replay(op, nil))
+	default:
+		out, merr := psd.Marshal()
+		if merr != nil {
+			violation("ber-real-remarshal-error:csblob:"+form, fmt.Sprintf("%s %s: %v", in.Src, in.Label, merr), in.replay(op, nil))
+			break
+		}
+		if bytes.Equal(out, x) {
+			run.Outcome(op + ":byte-identical")
+			break
+		}
+		ly, lerr := dergen.Locate(out)
+		if lerr != nil {
+			violation("ber-real-output-not-der:csblob:"+form, fmt.Sprintf("%s %s: %v", in.Src, in.Label, lerr), in.replay(op, map[string]any{"output_hex": hex.EncodeToString(out)}))
+			break
+		}
+		d := compare(lx, ly, cmpOpts{})
+		for _, s := range dedupe(d.signed) {
+			violation("signed-region-changed:ber-real:csblob:"+s, fmt.Sprintf("%s %s (%s)", in.Src, in.Label, form), in.replay(op, map[string]any{"output_hex": hex.EncodeToString(out)}))
+		}
+		run.Outcome(op + ":parsed")
+	}
+	// xar: only the step that reads the signature is under test here; whether
+	// the signature then covers this harness's TOC hash is not
+	xa := &xar.XAR{HashFunc: crypto.SHA256, TOCHash: make([]byte, 32), CMSSignature: src}
+	err, pan = guard(in, "xar.Verify", func() (e error) { _, e = xa.Verify(true); return })
+	run.Eval(1)
+	op = "ber-real:xar:" + form
+	if pan {
+		return
+	}
+	if err != nil && (strings.HasPrefix(err.Error(), "reading CMS signature") || !strings.Contains(err.Error(), "CMS signature") && !strings.Contains(err.Error(), "pkcs7") && !strings.Contains(err.Error(), "pkcs9") && !strings.Contains(err.Error(), "x509") && !strings.Contains(err.Error(), "timestamp")) {
+		violation("ber-form-refused:xar.Verify:"+form, fmt.Sprintf("%s %s: %v", in.Src, in.Label, err), in.replay(op, map[string]any{"ber_hex": hex.EncodeToString(src)}))
+		return
+	}
+	run.Outcome(op + ":read")
 }
 
 // checkRelicBuilt: signedAttrs contain exactly one contentType equal to
